@@ -20,10 +20,10 @@ open Bio Bio.GoRt Bio.Generated
 /-! ## FASTA: `(*reader).read` is `Fasta.readOne` -/
 
 /-- the mutable variables of the translated `read` loop: name, sequence, state, readAnything, pos, broke -/
-abbrev FastaRS := Bytes × Bytes × Nat × Bool × Nat × Bool
+abbrev FastaRS := Bytes × Bytes × Int × Bool × Nat × Bool
 
 /-- the Go constants `stateNewLine`, `stateName`, `stateSequence` -/
-def fastaStCode : Fasta.St → Nat
+def fastaStCode : Fasta.St → Int
   | .newline => 1
   | .name => 2
   | .seq => 3
